@@ -122,7 +122,8 @@ def inject(w, ev, a, b, c):
     elif ev == 'peer_close':
         w.ev_conn_lost()
     elif ev == 'close_done':
-        w.ev_conn_lost()
+        cs = [c for c in w.reactor.connectors if c.state == 'connected' and c.transport.disconnecting]
+        w.ev_conn_lost(cs[0])
     else:
         raise AssertionError(ev)
 
@@ -161,11 +162,10 @@ def applicable(w, ev):
     if ev in ('tcp_ok', 'tcp_fail'):
         return len([c for c in r.connectors if c.state == 'connecting']) >= 1
     if ev in MSG_EVENTS or ev == 'peer_close':
-        cs = [c for c in r.connectors if c.state == 'connected']
-        return len(cs) >= 1 and not cs[-1].transport.disconnecting
+        cs = [c for c in r.connectors if c.state == 'connected' and not c.transport.disconnecting]
+        return len(cs) >= 1
     if ev == 'close_done':
-        cs = [c for c in r.connectors if c.state == 'connected']
-        return len(cs) >= 1 and cs[-1].transport.disconnecting
+        return len([c for c in r.connectors if c.state == 'connected' and c.transport.disconnecting]) >= 1
     if ev == 'timer':
         return len(r.active_calls()) > 0
     if ev in TIMER_EVS:
